@@ -298,23 +298,24 @@ def flag_facts(fn, facts, cx=None):
     for (e2, f2) in facts:
         by_switch.setdefault(e2[0], []).append((e2, f2))
     for (e, fa) in facts:
-        if not (fa[0] == "cond" and fa[1] == "other" and isinstance(fa[2], tuple) and fa[2] and fa[2][0] == "phi"
-                and fa[2][1][0] == fn.key):
+        if not (fa[0] == "cond" and fa[1] == "other" and isinstance(fa[2], tuple) and fa[2] and fa[2][0] == "phi"):
             continue
-        L = fa[2][1][1]
-        ds = fn.defs().get(L, [])
-        if cx is not None and ds and all(d[0] in ("assign", "call") for d in ds) and not any(
-                d[0] == "assign" and d[3]["k"] == "use" and "const" in d[3]["op"] for d in ds):
-            # a flag computed by a different comparison on each incoming path (`let ok = if a { x == y } else { u == w }`):
-            # on an edge of the test, the comparison of whichever definition reached it has that truth value
+        alts = fa[2][2]
+        if alts and not any(a[0] == "const" for a in alts):
+            # a flag computed by a different comparison on each incoming path (`let ok = if a { x == y } else { u == w }`), tested
+            # here or in a helper it was handed to: on an edge of the test, the comparison of whichever definition reached it
+            # has that truth value
             from .guards import norm_cond
             subs = []
-            for d in ds:
-                t = cx.rvalue(d[3], (fn.key, d[1], d[2])) if d[0] == "assign" else cx.call(d[2], cx.site(d[1]))
+            for t in alts:
                 kind, a, b, pos = norm_cond(t)
                 subs.append(("cond", kind, a, b, fa[4] == pos))
             out.append((e, ("all", tuple(subs))))
             continue
+        if fa[2][1][0] != fn.key:
+            continue
+        L = fa[2][1][1]
+        ds = fn.defs().get(L, [])
         vals = {}
         bad = False
         for d in ds:
@@ -1370,15 +1371,16 @@ ITEM = ("item",)
 
 def subst(t, mapping):
     """replace subterms (exact matches via predicate list [(pred, replacement)])"""
-    if not isinstance(t, tuple):
+    if not isinstance(t, tuple) or not t:
         return t
-    for p, r in mapping:
-        if p(t):
-            return r
-    if t and t[0] in ("call",):
-        return ("call", t[1], tuple(subst(x, mapping) for x in t[2])) + t[3:]
-    if t and t[0] == "op":
-        return ("op", t[1], tuple(subst(x, mapping) for x in t[2])) + t[3:]
+    if isinstance(t[0], str):
+        for p, r in mapping:
+            if p(t):
+                return r
+        if t[0] == "call":
+            return ("call", t[1], tuple(subst(x, mapping) for x in t[2])) + t[3:]
+        if t[0] == "op":
+            return ("op", t[1], tuple(subst(x, mapping) for x in t[2])) + t[3:]
     return tuple(subst(x, mapping) if isinstance(x, tuple) else x for x in t)
 
 
@@ -1406,7 +1408,7 @@ def reduction_of(prog, fn, v, t):
         body = closure_body(prog, clo, {2: ACC, 3: ITEM})
         if body is None:
             return None
-        return {"source": src[1] if src[0] == "iter" else src, "init": [init], "steps": [body], "after": [], "form": "fold",
+        return {"source": strip_iter_calls(src), "init": [init], "steps": [body], "after": [], "form": "fold",
                 "skippable": False, "early_exit": False}
     if t[0] == "phi":
         key, local = t[1]
@@ -1433,7 +1435,7 @@ def reduction_of(prog, fn, v, t):
                         after.append(x)
                     else:
                         init.append(x)
-                return {"source": it[1] if it[0] == "iter" else it, "init": init, "steps": steps, "after": after, "form": "loop",
+                return {"source": strip_iter_calls(it), "init": init, "steps": steps, "after": after, "form": "loop",
                         "skippable": lp["skippable"].get(local, False), "early_exit": any(c == "break" for _, c in lp["exits"]), "loop": lp}
         return None
     # wrapped: add(reduction, extra) etc. are handled by the callers
@@ -1816,7 +1818,8 @@ def map_components(P, f, v, t):
             if sv is None or sv["adaptors"] or sv["drop_front"] or sv["drop_back"]:
                 out.append(("?", o))
                 continue
-            out.append(("each", sv["base"], args[0], args[1]) if o[1] == "insert" and len(args) == 2 else ("each", sv["base"], None, args[0]))
+            out.append(("each", sv["base"], args[0], args[1], ("loop", lp["header"])) if o[1] == "insert" and len(args) == 2
+                       else ("each", sv["base"], None, args[0], ("loop", lp["header"])))
         return out
     m = mapping_of(P, f, v, t)
     if m:
@@ -1852,3 +1855,36 @@ def dedup_of(P, f, v, base):
             return len(comps) == 1 and comps[0][0] == "each" and comps[0][2] is None and bool(base(comps[0][1]))
         return False
     return m
+
+
+def paired_sequences(P, f, v, t):
+    """t is a pair of sequences filled in lock-step from one traversal: `(a, b)` with a.push(x_i), b.push(y_i) in the same loop, or
+    `S.map(|i| (x_i, y_i)).unzip()` -> dict(source, first, second (terms over ITEM), ctx=("loop", header)|("closure", key)) or None"""
+    if is_call(t, name="unzip") and len(t[2]) == 1 and is_call(t[2][0], name="map") and len(t[2][0][2]) == 2:
+        src, clo = t[2][0][2]
+        body = closure_body(P, clo, {2: ITEM})
+        sv = seq_view(src)
+        if body is None or sv is None or sv["adaptors"] or sv["drop_front"] or sv["drop_back"]:
+            return None
+        if body[0] == "agg" and body[1] == "tuple" and len(body[4]) == 2:
+            return {"source": sv["base"], "first": body[4][0][1], "second": body[4][1][1], "ctx": ("closure", clo[1])}
+        return None
+    if t[0] == "agg" and t[1] == "tuple" and len(t[4]) == 2:
+        a, b = map_components(P, f, v, t[4][0][1]), map_components(P, f, v, t[4][1][1])
+        if len(a) == 1 and len(b) == 1 and a[0][0] == "each" and b[0][0] == "each" and a[0][1] == b[0][1] and \
+                a[0][2] is None and b[0][2] is None and len(a[0]) > 4 and a[0][4] == b[0][4]:
+            return {"source": a[0][1], "first": a[0][3], "second": b[0][3], "ctx": a[0][4]}
+    return None
+
+
+def site_is_per_item(f, ctx_, site):
+    """a call/op site executes once per element of the traversal described by ctx_ (inside that loop / inside that closure)"""
+    outer = site[1][0] if site and site[0] == "inl" and site[1] else (site[2:] if site and site[0] == "inl" else site)
+    if ctx_[0] == "closure":
+        key = outer[1] if outer and outer[0] == "clo" else outer[0]
+        return key == ctx_[1] or (site and site[0] == "inl" and any(fr[0] == "clo" and fr[1] == ctx_[1] for fr in site[1])) or \
+            (site and site[0] != "inl" and site[0] == ctx_[1]) or (site and site[0] == "inl" and site[2] == ctx_[1])
+    if ctx_[0] == "loop":
+        lps = [lp for lp in f.loops() if lp["header"] == ctx_[1]]
+        return bool(lps) and outer and outer[0] == f.key and outer[-1] in lps[0]["body"]
+    return False
